@@ -24,6 +24,10 @@ def plan(tier):
     if tier == "thorough":
         pl += [(PG.saturate(2, 1, 0.05), 2, PT), (PG.saturate_resize(3, 1), 2, dict(kinds=("P",))),
                (PG.saturate_after_idle(2), 2, dict(kinds=("T",)))]
+    # source-line granularity (one preemption at any line of loky run by a parent thread)
+    pl += simcheck.line_plan([PG.two_submitters(2, 0.05), PG.saturate_after_idle(2)])
+    if tier == "thorough":
+        pl += simcheck.line_plan([p for p, _, _ in pl if "cpu1" not in p["name"]])
     return pl
 
 
